@@ -82,6 +82,20 @@ Proof. intros H. unfold run_token. rewrite H. reflexivity. Qed.
 Lemma starts_with_app s r : starts_with s (s ++ r) = Some r.
 Proof. induction s as [|c s IH]; cbn; [reflexivity|]. rewrite N.eqb_refl. exact IH. Qed.
 
+(* a token character: neither blank, nor '#', nor newline *)
+Definition stopc (WS : list chr) (d : chr) : bool :=
+  negb (memc d WS) && negb (N.eqb d HASH) && negb (N.eqb d NL).
+Lemma stopc_elim WS d : stopc WS d = true -> memc d WS = false /\ N.eqb d HASH = false /\ N.eqb d NL = false.
+Proof.
+  unfold stopc. intros H. apply andb_prop in H as [H H3]. apply andb_prop in H as [H1 H2].
+  repeat split; apply negb_true_iff; assumption.
+Qed.
+Lemma memc_forallb cs (P : chr -> bool) d : forallb P cs = true -> memc d cs = true -> P d = true.
+Proof.
+  intros H Hd. unfold memc in Hd. apply existsb_exists in Hd as (e & Hin & He).
+  apply N.eqb_eq in He. subst e. rewrite forallb_forall in H. apply H. exact Hin.
+Qed.
+
 (* ---------------------------------------------------------------- preParse *)
 Definition std_skip_ign (WS : list chr) (x : pstr) : pstr :=
   match skip_ws WS x with
